@@ -169,7 +169,7 @@ func runC13(r *mon.Run) {
 			q.Add(q, secp256k1.NewGeneratorPoint())
 			kb := k.Bytes()
 			for j := range kb {
-				kb[j] ^= 0x77
+				kb[j] += 0x77
 			}
 			w.Class("c13:key-handouts-mutated")
 		}
